@@ -87,7 +87,9 @@ fn n_call1(vm: &mut Vm<Aux>, f: Value, x: Value) -> Result<Value, ExecutionError
 pub const MENU: [&str; 4] = ["log1", "add2", "fail0", "call1"];
 
 /// hand-written witnesses, run before the random programs
-const CORPUS: [(&str, &str); 7] = [
+const CORPUS: [(&str, &str); 8] = [
+    // known finding N-C01-1: runs on a VM with the DEFAULT value stack (256 slots), see `gen`
+    ("N-C01-1", include_str!("../../findings/C01/N-C01-1_call_statement_in_loop_leaks_stack.json")),
     ("R-1a", include_str!("../../findings/C01/R-1a_min_by_key_key_function_appends_segfault.json")),
     ("R-1b", include_str!("../../findings/C01/R-1b_min_by_key_key_function_grows_table.json")),
     ("R-2a", include_str!("../../findings/C01/R-2a_captured_local_below_a_statement_value.json")),
@@ -101,7 +103,9 @@ pub fn new_vm(host: &[&str]) -> Vm<'static, Aux> {
     // VERIF_MAX_ITER: a smaller instruction budget (C06 skips long runs early)
     let max_iter = std::env::var("VERIF_MAX_ITER").ok().and_then(|s| s.parse().ok()).unwrap_or(400_000);
     let mut vm = Vm::new(Aux::default()).unwrap().with_max_iter(max_iter);
-    vm.runtime_data = RuntimeData::new(256 * 1024 * 1024, 16 * 1024, 400).unwrap();
+    // VERIF_STACK: value-stack size (the witness of N-C01-1 runs with the default 256)
+    let stack = std::env::var("VERIF_STACK").ok().and_then(|s| s.parse().ok()).unwrap_or(16 * 1024);
+    vm.runtime_data = RuntimeData::new(256 * 1024 * 1024, stack, 400).unwrap();
     for h in host {
         match *h {
             "log1" => vm.register_native_function("log1", into_f1(n_log1)).unwrap(),
@@ -1337,9 +1341,11 @@ pub fn gen(a: &Args) {
     corpus.reverse();
     while w.len() < a.n {
         let mut feats = BTreeMap::new();
+        let mut stack_arg: Option<&str> = None;
         let m = match corpus.pop() {
             Some((name, m)) => {
                 feats.insert(format!("corpus.{}", name), 1);
+                if name == "N-C01-1" { stack_arg = Some("256"); }
                 m
             }
             None => gen_program(&mut rng, &mut feats, allow_shadow),
@@ -1355,12 +1361,10 @@ pub fn gen(a: &Args) {
         // stack overflow) becomes the observation `obspanic` instead of ending the whole run
         let cur = a.out.join("current.json");
         std::fs::write(&cur, serde_json::to_string(&m).unwrap()).unwrap();
-        let child = std::process::Command::new(std::env::current_exe().unwrap())
-            .arg("c01-obs")
-            .arg(&cur)
-            .arg(host.join(","))
-            .output()
-            .expect("spawn");
+        let mut cmd = std::process::Command::new(std::env::current_exe().unwrap());
+        cmd.arg("c01-obs").arg(&cur).arg(host.join(","));
+        if let Some(sz) = stack_arg { cmd.env("VERIF_STACK", sz); }
+        let child = cmd.output().expect("spawn");
         let text = String::from_utf8_lossy(&child.stdout).to_string();
         let (obs, class) = match (child.status.success(), text.split_once('\n')) {
             (true, Some((class, obs))) => (obs.trim().to_string(), class.to_string()),
